@@ -95,16 +95,33 @@ def judge(kind, text, v):
     return 'differ', C.Fail(PROP, '%s · ref=accept · obs=accept · parts differ' % kind, kind, text, v, [list(map(str, ref[1:]))])
 
 
+def long_digit_cases():
+    """digit runs around and beyond the width of usize/u64 as automatic-numbering heads and as [index] accessors, zero-padded or not"""
+    runs = []
+    for l in list(range(1, 26)) + [30, 40, 64, 100]:
+        for body in ('0' * l, '0' * (l - 1) + '1', '1' + '0' * (l - 1), '9' * l, '18446744073709551615'[:l].rjust(l, '0'), '18446744073709551616'[:l].rjust(l, '0')):
+            runs.append(body)
+    runs = sorted(set(runs))
+    fields = [r for r in runs] + ['a[%s]' % r for r in runs] + ['%s.a' % r for r in runs] + ['a[%s].b[%s]' % (r, r) for r in runs[:40]]
+    templates = ['{%s}' % f for f in fields] + ['x{%s!r:>{w}}y' % r for r in runs]
+    return fields, templates
+
+
 def run_shard(args):
     kind, sigma, n, shard = args
     op = 'fmtstr' if kind == 'template' else 'fieldname'
+    if sigma is None:
+        strings = [(t, len(t)) for t in shard]
+        gen = [strings]
+    else:
+        gen = X.chunks(X.shard_strings(sigma, n, shard), 20000)
     r = C.Result()
-    for chunk in X.chunks(X.shard_strings(sigma, n, shard), 20000):
+    for chunk in gen:
         res = C.run_worker([op + '\t' + C.hx(t) for t, _ in chunk])
         for (t, l), v in zip(chunk, res):
             out, fail = judge(kind, t, v)
             r.evaluations += 1
-            r.by_bound['%s len=%d' % (kind, l)] += 1
+            r.by_bound[('%s len=%d' % (kind, l)) if sigma is not None else kind + ' long digit runs'] += 1
             r.outcomes[kind + ':' + out] += 1
             nontriv = ('{' in t or '}' in t) if kind == 'template' else any(c in t for c in '.[]')
             if nontriv:
@@ -124,15 +141,17 @@ def run(tier, seed):
     nt, nf = BOUNDS[tier]
     shards = [('template', TEMPLATE_SIGMA, nt, s) for s in X.prefix_shards(TEMPLATE_SIGMA, nt)]
     shards += [('field', FIELD_SIGMA, nf, s) for s in X.prefix_shards(FIELD_SIGMA, nf)]
+    lf, lt = long_digit_cases()
+    shards += [('field', None, 0, lf), ('template', None, 0, lt)]
     total = C.Result()
     for r in C.pmap(run_shard, shards):
         total.merge(r)
-    expect = X.count_strings(TEMPLATE_SIGMA, nt) + X.count_strings(FIELD_SIGMA, nf)
+    expect = X.count_strings(TEMPLATE_SIGMA, nt) + X.count_strings(FIELD_SIGMA, nf) + len(lf) + len(lt)
     if total.evaluations != expect:
         raise C.Machinery('enumeration incomplete: %d of %d' % (total.evaluations, expect))
     rule = ('every string over %s of length<=%d through FormatString::from_str vs _string.formatter_parser, and every string over %s '
             'of length<=%d through FieldName::parse vs _string.formatter_field_name_split; distinct = distinct input text; '
-            'non-trivial = template containing a brace / field name containing an accessor character; '
+            'plus digit runs of 1..25, 30, 40, 64 and 100 digits (zero padded, 2^64-1, 2^64) as heads and [index] accessors; non-trivial = template containing a brace / field name containing an accessor character; '
             'states = inputs, transitions = real-code executions' % (''.join(TEMPLATE_SIGMA), nt, ''.join(FIELD_SIGMA), nf))
     return C.finish(PROP, tier, seed, t0, total, rule,
                     ['CPython 3.11 _string.formatter_parser / formatter_field_name_split define the reference', 'derive(Debug) is faithful'],
